@@ -203,7 +203,7 @@ def register(w):
             ghost={"open_files": "trace"},
             use_lemmas=[("safe-sel-resolves-under-root", {"s": "selector", "root": ROOT})] if name != "stat" else [],
             result_elem="S.child_name_ok(elem)" if name == "listdir" else None,
-            props=["C01", "C04"] if name in ("open", "stat") else ["C01"],
+            props=["C01", "C04", "C12", "C03"] if name in ("open", "stat") else ["C01", "C12", "C03"],
         )
     register2(w)
     register3(w)
